@@ -204,3 +204,20 @@ impl<'a> Gen<'a> {
         s
     }
 }
+
+/// An aligned copy of `bytes` (never a zero-sized allocation); use `&a.0[..a.1]`.
+pub struct Acopy(pub flatty::AlignedBytes, pub usize);
+impl Acopy {
+    pub fn new(bytes: &[u8], align: usize) -> Self {
+        let mut a = flatty::AlignedBytes::new(bytes.len().max(align.max(1)), align.max(1));
+        a.fill(0);
+        a[..bytes.len()].copy_from_slice(bytes);
+        Acopy(a, bytes.len())
+    }
+}
+impl core::ops::Deref for Acopy {
+    type Target = [u8];
+    fn deref(&self) -> &[u8] {
+        &self.0[..self.1]
+    }
+}
